@@ -2,6 +2,7 @@ pub mod c01;
 pub mod c02;
 pub mod c03;
 pub mod c04;
+pub mod c05;
 pub mod c08;
 pub mod c09;
 pub mod c10;
@@ -12,6 +13,8 @@ pub mod c14;
 pub mod c15;
 pub mod c16;
 pub mod c17;
+pub mod c18;
+pub mod c19;
 pub mod c20;
 pub mod common;
 pub mod sendview;
@@ -25,6 +28,7 @@ pub fn all() -> Vec<Box<dyn Prop>> {
         Box::new(c02::C02),
         Box::new(c03::C03),
         Box::new(c04::C04),
+        Box::new(c05::C05),
         Box::new(c08::C08),
         Box::new(c09::C09),
         Box::new(c10::C10),
@@ -35,6 +39,8 @@ pub fn all() -> Vec<Box<dyn Prop>> {
         Box::new(c15::C15),
         Box::new(c16::C16),
         Box::new(c17::C17),
+        Box::new(c18::C18),
+        Box::new(c19::C19),
         Box::new(c20::C20),
     ]
 }
